@@ -10,6 +10,7 @@ use num_bigint::{BigInt, BigUint};
 use swimos_form::read::RecognizerReadable;
 use swimos_model::{Attr, Blob, Item, Text, Value};
 use swimos_recon::parser::{parse_recognize, parse_text_token, RecognizerDecoder, Span};
+use swimos_recon::WithLenRecognizerDecoder;
 use swimos_recon::{print_recon, print_recon_compact, print_recon_pretty};
 use tokio_util::codec::Decoder;
 use vcore::*;
@@ -454,6 +455,91 @@ fn main() {
             }
         }
     }
+    // length-delimited frames (WithLenRecognizerDecoder: 8 bytes of length, then the text, blanks around the value
+    // allowed): two frames back to back, fed under every cut of the first 72 bytes, one byte at a time and in random
+    // pieces; each value must come out as soon as the last byte of its frame is there, the one-shot parser's value,
+    // with nothing left over
+    {
+        let frame = |text: &str| -> Vec<u8> {
+            let mut f = (text.len() as u64).to_be_bytes().to_vec();
+            f.extend_from_slice(text.as_bytes());
+            f
+        };
+        let pads = ["", " ", "  ", "   \n", "\t \n "];
+        let rounds = (args.cases / 4).max(20);
+        for round in 0..rounds {
+            let (a, b) = (gen_value(&mut rng, 2), gen_value(&mut rng, 2));
+            let (ta, tb) = (print_recon_compact(&a).to_string(), print_recon_compact(&b).to_string());
+            // corpus first: the padded record of the decoder's own tests
+            let t1 = if round == 0 { "  @attr { a: 1}   ".to_string() } else { format!("{}{}{}", rng.pick(&pads), ta, rng.pick(&pads)) };
+            let t2 = if round == 0 { "{b:2, c:3}".to_string() } else { format!("{}{}{}", rng.pick(&pads), tb, rng.pick(&pads)) };
+            let (e1, e2) = match (parse(&t1), parse(&t2)) {
+                (Ok(x), Ok(y)) => (x, y),
+                _ => continue,
+            };
+            let (f1, f2) = (frame(&t1), frame(&t2));
+            let ends = [f1.len(), f1.len() + f2.len()];
+            let mut data = f1.clone();
+            data.extend_from_slice(&f2);
+            *kinds.entry("with_len_frames".into()).or_default() += 1;
+            if t1.trim_end().len() != t1.len() {
+                *kinds.entry("with_len_frames_with_trailing_blanks".into()).or_default() += 1;
+            }
+            let mut chunkings: Vec<Vec<usize>> = (1..data.len().min(72)).map(|c| vec![c]).collect();
+            chunkings.push((1..data.len()).collect());
+            for _ in 0..3 {
+                let mut cs = vec![];
+                let mut i = 0;
+                while i < data.len() {
+                    i += rng.range(1, 5) as usize;
+                    if i < data.len() {
+                        cs.push(i);
+                    }
+                }
+                chunkings.push(cs);
+            }
+            for cuts in chunkings {
+                oracle_evals += 1;
+                let r = catch(std::panic::AssertUnwindSafe(|| -> Result<(), String> {
+                    let mut dec = WithLenRecognizerDecoder::new(Value::make_recognizer());
+                    let mut buf = BytesMut::new();
+                    let mut out: Vec<Value> = vec![];
+                    let mut prev = 0;
+                    let mut bounds = cuts.clone();
+                    bounds.push(data.len());
+                    for c in bounds {
+                        buf.extend_from_slice(&data[prev..c]);
+                        prev = c;
+                        let mut steps = 0;
+                        loop {
+                            steps += 1;
+                            if steps > 50 {
+                                return Err("the decoder does not come to rest".into());
+                            }
+                            match dec.decode(&mut buf) {
+                                Ok(Some(v)) => out.push(v),
+                                Ok(None) => break,
+                                Err(e) => return Err(format!("error {:?} after {} values", e, out.len())),
+                            }
+                        }
+                        let complete = ends.iter().filter(|e| **e <= c).count();
+                        if out.len() != complete {
+                            return Err(format!("after {} bytes {} values had come out although {} frames were complete", c, out.len(), complete));
+                        }
+                    }
+                    if out.len() != 2 || format!("{:?}", out[0]) != format!("{:?}", e1) || format!("{:?}", out[1]) != format!("{:?}", e2) || !buf.is_empty() {
+                        return Err(format!("decoded {:?} with {} bytes left", out, buf.len()));
+                    }
+                    Ok(())
+                }));
+                match r {
+                    Ok(Ok(())) => {}
+                    Ok(Err(e)) => failures.push(format!("length-delimited frames {:?} / {:?} cut at {:?}: {}", t1, t2, cuts, e)),
+                    Err(m) => failures.push(format!("length-delimited frames {:?} / {:?}: the decoder panicked: {}", t1, t2, m)),
+                }
+            }
+        }
+    }
     // typed values of built-in types: recovered exactly by reading them back as the same type
     macro_rules! typed {
         ($t:ty, $vals:expr) => {
@@ -547,7 +633,7 @@ fn main() {
     let meta = J::obj(vec![
         ("evaluations", J::I(w.len() as i128 + oracle_evals as i128)),
         ("distinct_nontrivial", J::I(nontrivial as i128)),
-        ("rule", J::s("(a) against the model: Value::Text printed by print_recon_compact for texts over a pool of boundary code points of the identifier ranges, controls, quotes, backslashes, astral characters, and `true` / `false` / empty; parse_text_token on literals with well-formed and malformed escapes (all of \\n \\\" \\\\ \\uXXXX with 0-5 digits, repeated u, upper/lower case hex, surrogates, unknown escapes), unterminated and unquoted inputs, blanks around; non-trivial = an escape is involved. (b) oracles on the real code only: for generated Values (all numeric kinds at their extremes, finite floats incl. subnormals and -0.0, big integers, blobs, texts, records up to depth 3 with attributes and slots) each of the three printers' output parses back to an == value, a further print/parse cycle reproduces the parsed value exactly and the text is stable, the incremental RecognizerDecoder gives the one-shot result for every cut position of the first 48 bytes (inside multi-byte characters too); mutated outputs never panic and are accepted/rejected alike by both parsers")),
+        ("rule", J::s("(a) against the model: Value::Text printed by print_recon_compact for texts over a pool of boundary code points of the identifier ranges, controls, quotes, backslashes, astral characters, and `true` / `false` / empty; parse_text_token on literals with well-formed and malformed escapes (all of \\n \\\" \\\\ \\uXXXX with 0-5 digits, repeated u, upper/lower case hex, surrogates, unknown escapes), unterminated and unquoted inputs, blanks around; non-trivial = an escape is involved. (b) oracles on the real code only: for generated Values (all numeric kinds at their extremes, finite floats incl. subnormals and -0.0, big integers, blobs, texts, records up to depth 3 with attributes and slots) each of the three printers' output parses back to an == value, a further print/parse cycle reproduces the parsed value exactly and the text is stable, the incremental RecognizerDecoder gives the one-shot result for every cut position of the first 48 bytes (inside multi-byte characters too); two length-delimited frames (WithLenRecognizerDecoder) whose texts carry blanks before and after the value, back to back, under every cut of the first 72 bytes, one byte at a time and in random pieces: each value comes out as soon as its frame is complete, equal to the one-shot parse, nothing left over; mutated outputs never panic and are accepted/rejected alike by both parsers")),
         ("structures", J::counts(&kinds)),
         ("samples", J::A(samples)),
         ("direct_failures", J::A(failures.iter().take(40).map(|f| J::s(f.chars().take(600).collect::<String>())).collect())),
